@@ -1,0 +1,5 @@
+//go:build !verif
+
+package writer
+
+func (s *writerState) verifDirty() int64 { return 0 }
